@@ -75,6 +75,28 @@ def make_rule(name, n):
                   "sub:half-finite": (0.0, 10.0), "sub:half-inner": (1.0, 5.0)}[name]
         base = og.GaussLegendre(n)
         return OneDGrid(0.5 * (hi - lo) * (base.points + 1) + lo, 0.5 * (hi - lo) * base.weights, (lo, hi))
+    if name == "int:pm1":
+        # a user-built closed rule whose node array has an integer dtype (Simpson's nodes -1, 0, 1; five nodes for n > 4)
+        k = 3 if n < 5 else 5
+        x = np.linspace(-1, 1, k).astype(int) if k == 3 else np.array([-1, 0, 0, 0, 1])
+        if k == 3:
+            return OneDGrid(x, np.array([1.0, 4.0, 1.0]) / 3.0, (-1, 1))
+        return OneDGrid(np.array([-1, 0, 1]), np.array([1.0, 4.0, 1.0]) / 3.0, (-1, 1))
+    if name == "one:gl-slice":
+        return og.GaussLegendre(5)[3:4]          # a one-point grid obtained by selection
+    if name == "one:gc2":
+        return og.GaussChebyshevType2(1)
+    if name == "one:half":
+        return OneDGrid(np.array([0.7]), np.array([1.3]), (0, np.inf))
+    if name == "int:half":
+        return OneDGrid(np.arange(n, dtype=np.int64), np.ones(n), (0, np.inf))
+    if name == "chain:multiexp-first":
+        # a grid produced by a DECREASING map (nodes in descending order), to be transformed again
+        from grid.rtransform import MultiExpRTransform
+
+        with warnings.catch_warnings():
+            warnings.simplefilter("ignore")
+            return MultiExpRTransform(0.0, 1.5).transform_1d_grid(og.GaussLegendre(n))
     if name == "chain:linear-linear":
         from grid.rtransform import LinearFiniteRTransform
 
@@ -371,6 +393,16 @@ def run(ctx):
             jobs.append((rn, n, name, p, inv, ctx.seed, False))
     for rn, n in EXTREME:
         for name, p, inv in pm1[:: 1 if ctx.thorough else 4]:
+            jobs.append((rn, n, name, p, inv, ctx.seed, False))
+    # one-point grids, integer-dtype node arrays, and grids that came out of a decreasing map (added after seeded
+    # changes C04-G / C04-H were missed)
+    for rn in ("one:gl-slice", "one:gc2", "int:pm1"):
+        for name, p, inv in pm1[:: 1 if ctx.thorough else 2]:
+            jobs.append((rn, 1 if rn != "int:pm1" else 3, name, p, inv, ctx.seed, False))
+    for rn, n in (("int:half", 5), ("chain:multiexp-first", 4), ("one:half", 1)):
+        for name, p, inv in half[:: 1 if ctx.thorough else 2]:
+            if name == "HyperbolicRTransform" and rn.startswith("chain:"):
+                continue      # nodes beyond the pole 1/b of the hyperbolic map: not a grid it can take
             jobs.append((rn, n, name, p, inv, ctx.seed, False))
     # domain mismatches must be rejected (one representative per class pair)
     for rn in (PM1_RULES[0], PM1_RULES[5]):
